@@ -11,7 +11,13 @@ def sanitizer_props(kind, run):
     if kind in ("lsan", "miri-leak"):
         return ["C10"]
     if kind in ("miri-race", "miri-deadlock"):
-        return ["C13"]
+        # vouched_time engines: the atomics protocol; everywhere else a data
+        # race is one thread writing arena memory another thread can read
+        if run["engine"] == "abt":
+            return ["C13"]
+        if run["engine"] == "park":
+            return ["C18", "C13"]
+        return ["C05", "C20"]
     return ["C05"]
 
 
@@ -212,7 +218,7 @@ PLANS["C04"] = {
 PLANS["C20"] = {
     "level": "exploration",
     "technique": "one shadow per live iovec, all compared after every operation on any of them (interference shows on the untouched side); clone/take-heavy histories with arena swaps and either side dropped first",
-    "rule": IOVEC_RULE, "assumptions": IOVEC_ASSUME, "required_features": IOVEC_REQ,
+    "rule": IOVEC_RULE, "assumptions": IOVEC_ASSUME, "required_features": IOVEC_REQ + ["iovec.cross_thread_clone_reads_checked"],
     "quick": [R("iovec", "dbg", cases=300000, focus="C20"),
               R("iovec", "rel", cases=300000, focus="C20")],
     "thorough": [R("iovec", "dbg", cases=3000000, focus="C20"),
@@ -416,7 +422,7 @@ PLANS["C18"] = {
     "required_features": ["park.writer_frozen_holding_lock", "park.writer_frozen_without_lock", "park.second_writer_blocked", "park.solo_paused_mid_read",
                           "park.solo_retried_after_writes_completed", "park.try_update_true", "park.try_update_false_lock_held",
                           "park.static_writer_frozen_holding_lock", "park.static_solo_observe_file_time", "park.frozen_before_Store", "park.frozen_after_Store", "park.frozen_before_Unlock",
-                          "park.many_try_updates_in_a_row_lock_held", "park.many_try_updates_in_a_row_lock_free"],
+                          "park.many_try_updates_in_a_row_lock_held", "park.many_try_updates_in_a_row_lock_free", "park.solo_call_on_a_poisoned_lock"],
     "quick": [R("park", "dbg", repeats=16, max_freeze=24)],
     "thorough": [R("park", "dbg", repeats=64, max_freeze=24),
                  R("park", "rel", repeats=64, max_freeze=24),
@@ -430,7 +436,8 @@ PLANS["C19"] = {
              "observe_file_time and maybe_observe_file_time on {old file created before trust, file whose change-time was bumped by chmod just before the "
              "call} x {device A, device B}, /proc/self/stat, /dev/null and the trusted path itself, scan_base_time, get_base_time(now) with now in "
              "{base-10 s, base, base+1993 ms, base+1994 ms, base+1 h}, get_base_time_unlocked, sleeps of 1..4 ms or 101 ms (the refresh throttle), and "
-             "replacing a registered trusted path by a symlink to a fresh file on the other device (a mount that moved; a refresh may then fail, but must not believe the new device). "
+             "replacing a registered trusted path by a symlink to a fresh file on the other device (a mount that moved; a refresh may then fail, but must not believe the new device), "
+             "and a concurrent step: four threads bump and observe their own files on a trusted device at the same time (with small delays injected through hook H3 before lock attempts) while the history's thread polls the base time, which must never be seen to decrease. "
              "Oracle after every call: get_base_time_unlocked().0 never decreases; if it changed, the new value equals the change-time (ms) the "
              "harness itself reads from one of the files this call could have stat-ed on a device that was trusted before the call or is being "
              "registered by it; observe_file_time returns None for every other device and Some((that file's change-time, voucher)) for trusted ones; "
@@ -442,7 +449,8 @@ PLANS["C19"] = {
                     "one history per process because the module state is process-global"],
     "required_features": ["nfs.base_time_moved", "nfs.untrusted_device_reported_nothing", "nfs.pseudo_fs_reported_nothing",
                           "nfs.older_trusted_file_did_not_move_base", "nfs.get_base_time_refreshed", "nfs.get_base_time_did_not_refresh",
-                          "nfs.calls_before_any_trust", "nfs.second_device_trusted", "nfs.trusted_path_swapped_to_other_device"],
+                          "nfs.calls_before_any_trust", "nfs.second_device_trusted", "nfs.trusted_path_swapped_to_other_device",
+                          "nfs.observations_made_by_concurrent_threads", "nfs.base_time_polls_during_concurrent_observers"],
     "quick": [R("nfs", "dbg", shards=4000, parallel=64, cases=4000)],
     "thorough": [R("nfs", "dbg", shards=40000, parallel=64, cases=40000),
                  R("nfs", "rel", shards=10000, parallel=64, cases=10000)],
@@ -471,6 +479,7 @@ PLANS["C05"] = {
                                    "ASan cannot see overruns that stay inside a live chunk; the disjointness and content checks cover those",
                                    "Miri's Stacked/Tree Borrows checks are off for owning_iovec (observation O1 in DESIGN.md): they flag consume_by_bytes + later merge on the unchanged tree, which is not one of the listed properties"],
     "required_features": ["iovec.exposed_slices_in_arena", "iovec.held_anchored_slice_pushed_later", "iovec.arena_swaps", "iovec.iovec_dropped_mid_history",
+                          "iovec.cross_thread_clone_reads_checked",
                           "stream.chunker.exposed_slices_checked", "stream.reader.exposed_slices_checked", "codec.enc.arena_poke", "codec.enc.method.AnchoredSplit",
                           "readn.exposed_slices_checked"],
     "quick": [R("iovec", "dbg", cases=200000, focus="C05"),
@@ -512,7 +521,7 @@ PLANS["C10"] = {
     "assumptions": ["unbounded stream length restated as: flat observed maxima at several lengths under one fixed constant (8 MiB)",
                     "the counters are process-wide, so each history runs in a single-threaded process"],
     "required_features": ["iovec.drop_accounting_checked", "codec.drop_accounting_checked", "stream.drop_accounting_checked", "stream.drained_every_call",
-                          "stream.anchored_slices_read_through_a_foreign_arena",
+                          "stream.anchored_slices_read_through_a_foreign_arena", "iovec.concurrent_rounds_with_accounting_back_to_baseline",
                           "stream.pipeline", "iovec.clones", "iovec.takes", "iovec.held_anchored_slice_pushed_later",
                           "stream.records_through_one_stream_reader", "stream.records_through_recycled_decoder"],
     "quick": [R("iovec", "dbg", cases=200000, focus="C10"),
